@@ -249,17 +249,23 @@ fn thread_run<P: Iterator<Item = usize>>(
     tbmc::end_thread(t);
 }
 
+/// Quick tier: the wrapped `next` is one atomic event, 7 guessed events per thread (fits the time budget).
 fn run2(mask: [u8; 2], nops: [usize; 2], lmax: usize, nmax: usize, hb: bool) {
-    run_n([mask[0], mask[1], 0, 0], [nops[0], nops[1], 0, 0], 2, lmax, nmax, hb);
+    run_nm([mask[0], mask[1], 0, 0], [nops[0], nops[1], 0, 0], 2, lmax, nmax, hb, 7, false);
+}
+
+/// Thorough tier: the wrapped `next` is two events (read, write-back), 8 guessed events per thread.
+fn run2p(mask: [u8; 2], nops: [usize; 2], lmax: usize, nmax: usize, hb: bool) {
+    run_nm([mask[0], mask[1], 0, 0], [nops[0], nops[1], 0, 0], 2, lmax, nmax, hb, tbmc::M, true);
 }
 
 /// `nt` threads (2..=4); thread t performs `nops[t]` operations drawn from `mask[t]`.
 fn run_n(mask: [u8; 4], nops: [usize; 4], nt: usize, lmax: usize, nmax: usize, hb: bool) {
-    run_nm(mask, nops, nt, lmax, nmax, hb, tbmc::M)
+    run_nm(mask, nops, nt, lmax, nmax, hb, tbmc::M, true)
 }
 
 /// `tm`: guessed events per thread
-fn run_nm(mask: [u8; 4], nops: [usize; 4], nt: usize, lmax: usize, nmax: usize, hb: bool, tm: usize) {
+fn run_nm(mask: [u8; 4], nops: [usize; 4], nt: usize, lmax: usize, nmax: usize, hb: bool, tm: usize, twophase: bool) {
     crate::hook::link();
     let len: usize = kani::any();
     kani::assume(len <= lmax);
@@ -274,7 +280,7 @@ fn run_nm(mask: [u8; 4], nops: [usize; 4], nt: usize, lmax: usize, nmax: usize, 
     let c0 = TProbeC0 { len, hint }.into_con_iter();
     let c1 = TProbeC1 { len, hint }.into_con_iter();
     let c2 = TProbeC2 { len, hint }.into_con_iter();
-    tbmc::guess_and_validate(len, hb, nt, tm);
+    tbmc::guess_and_validate(len, hb, nt, tm, twophase);
     let mut res = [[R0; OPS]; 4];
     let last = nt - 1;
     // pass 1: the in-crate checks of the non-last threads are not believed (ignorefn=TProbeA): they run
@@ -455,7 +461,7 @@ fn run_nm(mask: [u8; 4], nops: [usize; 4], nt: usize, lmax: usize, nmax: usize, 
 const U: usize = 12;
 
 // @verif family=TBMC hook=1 ignorefn=TProbeA quick=C01,C02,C04,C05,C09 timeout=2400 mem=40
-// @bounds kind=ConIterOfIter<usize,TProbe*> len<=2, all size hints; 2 threads x 1 next_id_and_value(); <=8 events per thread in the guessed trace + solo continuation of the last thread; all interleavings
+// @bounds kind=ConIterOfIter<usize,TProbe*> len<=2, all size hints; 2 threads x 1 next_id_and_value(); <=7 events per thread in the guessed trace (wrapped next = one atomic event) + solo continuation of the last thread; all interleavings
 #[kani::proof]
 #[kani::unwind(12)]
 fn t2_single_single() {
@@ -463,7 +469,7 @@ fn t2_single_single() {
 }
 
 // @verif family=TBMC hook=1 ignorefn=TProbeA quick=C07 timeout=2400 mem=40
-// @bounds kind=ConIterOfIter<usize,TProbe*> len<=2; 2 threads x 1 next_id_and_value(); <=8 events per thread + solo continuation; happens-before from the recorded memory orderings (vector clocks), ticket exclusivity
+// @bounds kind=ConIterOfIter<usize,TProbe*> len<=2; 2 threads x 1 next_id_and_value(); <=7 events per thread (atomic next) + solo continuation; happens-before from the recorded memory orderings (vector clocks), ticket exclusivity
 #[kani::proof]
 #[kani::unwind(12)]
 fn t2_hb_single_single() {
@@ -471,7 +477,7 @@ fn t2_hb_single_single() {
 }
 
 // @verif family=TBMC hook=1 ignorefn=TProbeA quick=C05,C04 thorough=C01 timeout=2400 mem=40 optcov=both
-// @bounds kind=ConIterOfIter<usize,TProbe*> len<=1; thread 0: 1 x next_id_and_value(), thread 1 (last; continues on its own after the trace): 2 x next_id_and_value() (pulls after the end was reported); <=8 guessed events per thread; all interleavings
+// @bounds kind=ConIterOfIter<usize,TProbe*> len<=1; thread 0: 1 x next_id_and_value(), thread 1 (last; continues on its own after the trace): 2 x next_id_and_value() (pulls after the end was reported); <=7 guessed events per thread (the wrapped next is one atomic event); all interleavings
 #[kani::proof]
 #[kani::unwind(12)]
 fn t2_single_single2() {
@@ -479,7 +485,7 @@ fn t2_single_single2() {
 }
 
 // @verif family=TBMC hook=1 ignorefn=TProbeA quick=C06 thorough=C09 timeout=2400 mem=40 optcov=both|wait
-// @bounds kind=ConIterOfIter<usize,TProbe*> len<=2; thread 0: skip_to_end then has_more/try_get_len, thread 1: 2 x next_id_and_value(); <=8 events per thread + solo continuation; all interleavings
+// @bounds kind=ConIterOfIter<usize,TProbe*> len<=2; thread 0: skip_to_end then has_more/try_get_len, thread 1: 2 x next_id_and_value(); <=7 events per thread (atomic next) + solo continuation; all interleavings
 #[kani::proof]
 #[kani::unwind(12)]
 fn t2_skip_single() {
@@ -487,7 +493,7 @@ fn t2_skip_single() {
 }
 
 // @verif family=TBMC hook=1 ignorefn=TProbeA quick=C11 thorough=C05 timeout=2400 mem=40 optcov=both|wait
-// @bounds kind=ConIterOfIter<usize,TProbe*> len<=2, all size hints; thread 0: 2 x has_more/try_get_len, thread 1: 2 x next_id_and_value(); <=8 events per thread + solo continuation; all interleavings
+// @bounds kind=ConIterOfIter<usize,TProbe*> len<=2, all size hints; thread 0: 2 x has_more/try_get_len, thread 1: 2 x next_id_and_value(); <=7 events per thread (atomic next) + solo continuation; all interleavings
 #[kani::proof]
 #[kani::unwind(12)]
 fn t2_len_single() {
@@ -495,7 +501,7 @@ fn t2_len_single() {
 }
 
 // @verif family=TBMC hook=1 ignorefn=TProbeA quick=C03 thorough=C02,C04 timeout=2400 mem=40
-// @bounds kind=ConIterOfIter<usize,TProbe*> len<=2; thread 0: buffered_iter(2).next(), thread 1: next_id_and_value(); <=8 events per thread + solo continuation; all interleavings
+// @bounds kind=ConIterOfIter<usize,TProbe*> len<=2; thread 0: buffered_iter(2).next(), thread 1: next_id_and_value(); <=7 events per thread (atomic next) + solo continuation; all interleavings
 #[kani::proof]
 #[kani::unwind(12)]
 fn t2_buf_single() {
@@ -503,7 +509,7 @@ fn t2_buf_single() {
 }
 
 // @verif family=TBMC hook=1 ignorefn=TProbeA quick=C09 thorough=C03,C02 timeout=2400 mem=40
-// @bounds kind=ConIterOfIter<usize,TProbe*> len<=2; thread 0: next_id_and_value(), thread 1: buffered_iter(2).next() (the chunk pull is the last thread: hang detection applies to it); <=8 events per thread + solo; all interleavings
+// @bounds kind=ConIterOfIter<usize,TProbe*> len<=2; thread 0: next_id_and_value(), thread 1: buffered_iter(2).next() (the chunk pull is the last thread: hang detection applies to it); <=7 events per thread (atomic next) + solo; all interleavings
 #[kani::proof]
 #[kani::unwind(12)]
 fn t2_single_buf() {
@@ -515,7 +521,7 @@ fn t2_single_buf() {
 #[kani::proof]
 #[kani::unwind(12)]
 fn t2_chunk_single() {
-    run2([B_CHUNK, B_SINGLE], [1, 1], 2, 2, false);
+    run2p([B_CHUNK, B_SINGLE], [1, 1], 2, 2, false);
 }
 
 // @verif family=TBMC hook=1 ignorefn=TProbeA thorough=C07 timeout=2400 mem=40
@@ -523,7 +529,7 @@ fn t2_chunk_single() {
 #[kani::proof]
 #[kani::unwind(12)]
 fn t2_hb_buf_single() {
-    run2([B_BUF, B_SINGLE], [1, 1], 2, 2, true);
+    run2p([B_BUF, B_SINGLE], [1, 1], 2, 2, true);
 }
 
 // @verif family=TBMC hook=1 ignorefn=TProbeA thorough=C07 timeout=2400 mem=40
@@ -531,7 +537,7 @@ fn t2_hb_buf_single() {
 #[kani::proof]
 #[kani::unwind(12)]
 fn t2_hb_single_buf() {
-    run2([B_SINGLE, B_BUF], [1, 1], 2, 2, true);
+    run2p([B_SINGLE, B_BUF], [1, 1], 2, 2, true);
 }
 
 // NOT REGISTERED (no `@verif` line): with the wrapped `next` modelled as one atomic event this four-thread harness
@@ -542,7 +548,7 @@ fn t2_hb_single_buf() {
 #[kani::proof]
 #[kani::unwind(12)]
 fn t4_single_skip_single_single() {
-    run_nm([B_SINGLE, B_SKIP, B_SINGLE, B_SINGLE], [1, 1, 1, 1], 4, 2, 2, true, 6);
+    run_nm([B_SINGLE, B_SKIP, B_SINGLE, B_SINGLE], [1, 1, 1, 1], 4, 2, 2, true, 6, true);
 }
 
 // @verif family=TBMC hook=1 ignorefn=TProbeA thorough=C01,C09 timeout=5400 mem=48 weight=6
@@ -550,7 +556,7 @@ fn t4_single_skip_single_single() {
 #[kani::proof]
 #[kani::unwind(12)]
 fn t3_single_single_single() {
-    run_nm([B_SINGLE, B_SINGLE, B_SINGLE, 0], [1, 1, 1, 0], 3, 2, 2, false, 6);
+    run_nm([B_SINGLE, B_SINGLE, B_SINGLE, 0], [1, 1, 1, 0], 3, 2, 2, false, 6, true);
 }
 
 // @verif family=TBMC hook=1 ignorefn=TProbeA thorough=C06 timeout=5400 mem=48 optcov=both|wait
@@ -558,7 +564,7 @@ fn t3_single_single_single() {
 #[kani::proof]
 #[kani::unwind(12)]
 fn t2_single_skip() {
-    run2([B_SINGLE, B_SKIP | B_LEN], [1, 2], 2, 2, false);
+    run2p([B_SINGLE, B_SKIP | B_LEN], [1, 2], 2, 2, false);
 }
 
 // @verif family=TBMC hook=1 ignorefn=TProbeA thorough=C06 timeout=7200 mem=40 optcov=both|wait
@@ -566,10 +572,26 @@ fn t2_single_skip() {
 #[kani::proof]
 #[kani::unwind(12)]
 fn t2_chunk_skip() {
-    run2([B_CHUNK, B_SKIP | B_LEN], [1, 2], 1, 2, false);
+    run2p([B_CHUNK, B_SKIP | B_LEN], [1, 2], 1, 2, false);
 }
 
 // NOTE: TBMC harnesses with enumerate_for_each on the wrapper (one thread looping until the end while another
 // pulls) were tried with chunk sizes 1 and 2: CBMC needed > 24 GB after 25 min (and > 16 GB for chunk size 2 even
 // sequentially). They are not registered; the for_each loop on the wrapper under interleavings is therefore
 // covered only through its constituent pulls (t2_* harnesses) and sequentially (iter_loops).
+
+// @verif family=TBMC hook=1 ignorefn=TProbeA thorough=C01,C02,C07 timeout=3600 mem=40
+// @bounds kind=ConIterOfIter<usize,TProbe*> len<=2; 2 threads x 1 next_id_and_value(); the wrapped next is TWO events (position read, position write-back: overlapping calls deliver the same element); <=8 guessed events per thread + solo continuation; all interleavings
+#[kani::proof]
+#[kani::unwind(12)]
+fn t2p_single_single() {
+    run2p([B_SINGLE, B_SINGLE], [1, 1], 2, 2, false);
+}
+
+// @verif family=TBMC hook=1 ignorefn=TProbeA thorough=C07 timeout=3600 mem=40
+// @bounds kind=ConIterOfIter<usize,TProbe*> len<=2; 2 threads x 1 next_id_and_value(); two-event model of the wrapped next; happens-before and exclusivity; <=8 guessed events per thread + solo
+#[kani::proof]
+#[kani::unwind(12)]
+fn t2p_hb_single_single() {
+    run2p([B_SINGLE, B_SINGLE], [1, 1], 2, 2, true);
+}
